@@ -16,7 +16,7 @@ theorem model_shape_facts :
     Generated.C11.waitOneWaiterPerPartition = true ∧ Generated.C11.waitStartsWithCurrentPos = true ∧
     Generated.C11.waiterCancelsTheRest = true ∧ Generated.C11.waitReturnsCtxErr = true ∧
     Generated.C11.queryLoopWaitCondition = true ∧ Generated.C11.queryLoopFreshTimeout = true ∧
-    Generated.C11.queryLoopBreaksOnTimeout = true := by decide
+    Generated.C11.queryLoopBreaksOnTimeout = true ∧ Generated.C11.queryLoopComparesClampedLimit = true := by decide
 
 /-- **End of data means "at the end position"**: when the forward `Get` of the journal iterator answers EOF, the
 iterator's position is the end position built from the (second) count read `c₂`, and every record below the first read
@@ -173,6 +173,55 @@ theorem backend_query_is_queryLoop {σ : Type} (c : Cur σ) (wt lim fuel : Nat) 
   have h2 : backendShape = ⟨true, true, true, false⟩ := by decide
   rw [h2]; simp [queryCall]
 
+/-! ### the request's `Limit` (the page cap `QueryMaxLimit`) -/
+
+/-- how the two functions treat the request's `Limit`, as the source has it now -/
+def backendLimit : LimitShape := ⟨Generated.C11.backendLimitShape.1, Generated.C11.backendLimitShape.2⟩
+def rpcLimit : LimitShape := ⟨Generated.C11.rpcLimitShape.1, Generated.C11.rpcLimitShape.2⟩
+
+/-- **The wait condition compares with the clamped limit**: for every `Limit` a client can send — below, at and beyond
+`QueryMaxLimit` — a request is the `queryCall` of the theorems above over `min Limit QueryMaxLimit`, on both paths. So
+everything proved about `queryCall`/`queryLoop` (it waits at end of data, re-reads after a wake-up, waits again with a fresh
+timeout) holds for requests with an oversized `Limit` too. -/
+theorem query_request_is_clamped_call {σ : Type} (c : Cur σ) (wt reqLimit fuel : Nat) (s : σ) :
+    queryRequest rpcShape rpcLimit Generated.C11.queryMaxLimit c wt reqLimit fuel s
+      = queryCall rpcShape c wt (min reqLimit Generated.C11.queryMaxLimit) fuel s ∧
+    queryRequest backendShape backendLimit Generated.C11.queryMaxLimit c wt reqLimit fuel s
+      = queryCall backendShape c wt (min reqLimit Generated.C11.queryMaxLimit) fuel s := by
+  have h1 : rpcLimit = ⟨true, true⟩ := by decide
+  have h2 : backendLimit = ⟨true, true⟩ := by decide
+  rw [h1, h2]
+  constructor <;> simp [queryRequest, queryCall]
+
+/-- **A waiting request of any positive `Limit` waits and returns the next event** — also `Limit > QueryMaxLimit`
+(seeded change C11-9 made exactly those requests answer empty at once): at end of data, with a wait timeout, the event the
+first wake-up brings is the answer, on both paths. -/
+theorem big_limit_request_waits (wt reqLimit e : Nat) (hw : 0 < wt) (hl : 0 < reqLimit) :
+    queryRequest rpcShape rpcLimit Generated.C11.queryMaxLimit scriptCur wt reqLimit 3 ([], [some [e]]) = .ok [e] ∧
+    queryRequest backendShape backendLimit Generated.C11.queryMaxLimit scriptCur wt reqLimit 3 ([], [some [e]]) = .ok [e] := by
+  have hm : 0 < Generated.C11.queryMaxLimit := by decide
+  have hq := query_request_is_clamped_call scriptCur wt reqLimit 3 ([], [some [e]])
+  have hpos : 0 < min reqLimit Generated.C11.queryMaxLimit := by
+    rw [Nat.lt_min]; exact ⟨hl, hm⟩
+  have hb : ∀ lim, 0 < lim → queryLoop scriptCur wt lim 3 lim ([], [some [e]]) [] = .ok [e] := by
+    intro lim hlim
+    have h0 : lim ≠ 0 := by omega
+    have h1 : lim - 1 ≠ lim := by omega
+    simp [queryLoop, scriptCur, h0, hw, h1]
+  rw [hq.1, hq.2, rpc_query_equals_backend_query _ _ _ _ _ (by omega), backend_query_is_queryLoop]
+  exact ⟨hb _ hpos, hb _ hpos⟩
+
+/-- the model's other branch (what seeded change C11-9 did): if the wait condition compares the countdown variable with the
+REQUEST's limit, a request beyond the cap never waits — whatever would have been written during its timeout, the answer is
+empty, at once. -/
+theorem unclamped_wait_condition_never_waits (early : Bool) (maxLimit wt reqLimit fuel : Nat) (futs : List (Option (List Nat)))
+    (hm : 0 < maxLimit) (hbig : maxLimit < reqLimit) :
+    queryRequest ⟨true, true, true, early⟩ ⟨true, false⟩ maxLimit scriptCur wt reqLimit (fuel + 1) ([], futs) = .ok [] := by
+  have h0 : min reqLimit maxLimit = maxLimit := Nat.min_eq_right (Nat.le_of_lt hbig)
+  have h1 : maxLimit ≠ 0 := by omega
+  have h2 : maxLimit ≠ reqLimit := by omega
+  simp [queryRequest, h0, h1, h2, queryLoop, scriptCur]
+
 /-! ### non-vacuity and the behaviours the harness measures, as kernel-evaluated runs -/
 
 /-- a write racing with the reader going to sleep — append and flush between the reader's EOF (position 3) and its
@@ -203,5 +252,10 @@ example : queryLoop scriptCur 5 10 10 10 ([], [some [], none]) [] = .ok [] := by
 example : queryLoop scriptCur 5 10 10 10 ([1, 2], [some [3]]) [] = .ok [1, 2] := by decide
 example : queryLoop emptyCurNow 1 10 40 10 () [] = .ok [] := by decide
 example : queryLoop (emptyCur true) 1 10 40 10 () [] = .outOfFuel := by decide
+/-- requests at and beyond the page cap: they wait and return what the wake-up brings; under the other branch the big one does not -/
+example : queryRequest rpcShape rpcLimit 10000 scriptCur 1 20000 10 ([], [some [], some [7]]) = .ok [7] := by decide
+example : queryRequest backendShape backendLimit 10000 scriptCur 1 10001 10 ([], [some [7]]) = .ok [7] := by decide
+example : queryRequest rpcShape ⟨true, false⟩ 10000 scriptCur 1 10000 10 ([], [some [7]]) = .ok [7] ∧
+    queryRequest rpcShape ⟨true, false⟩ 10000 scriptCur 1 10001 10 ([], [some [7]]) = .ok [] := by decide
 
 end Logrange.Props.C11
